@@ -12,6 +12,7 @@ import DdnnfVerif.Proofs.LoadWF2_14
 import DdnnfVerif.Proofs.D4Conv
 import DdnnfVerif.Proofs.Lex
 import DdnnfVerif.Proofs.LoadAll
+import DdnnfVerif.Proofs.LoadOK3
 namespace Ddnnf.C01
 
 /-- The reported count (`Ddnnf::rc()` = count of the last node) is the number of assignments to
@@ -188,5 +189,16 @@ theorem d4_conventions_check_gives_every_structural_hypothesis (lines : List D4.
     WF (D4.load lines total).2.1 (D4.load lines total).1 ∧ LitUnique (D4.load lines total).2.1 ∧
       MS.HasParents (D4.load lines total).2.1 :=
   D4.conventions2B_sound lines total h
+
+/-- … and the side conditions of the enumeration (C06) and CNF export (C19) theorems: no `True` node below
+an or-node, the root not `True`, leaf literals within 1..n, the root represented by the Tseitin variable
+introduced last.  None of them follows from `WF` alone (machine-checked counterexamples
+`wf_not_noTruUnderOr`, `cnfOK_needs_hasParents`, `wf_not_litRange`), they are invariants of the loader;
+the feature bounds cannot be dropped (`D4.enumOK_needs_feature`, `D4.cnfOK_needs_two_features`). -/
+theorem d4_conventions_check_gives_the_enumeration_and_export_side_conditions (lines : List D4.Line)
+    (total : Nat) (h : D4.conventions2B lines total = true) :
+    (1 ≤ (D4.load lines total).1 → C06.EnumOK (D4.load lines total).2.1) ∧
+    (2 ≤ (D4.load lines total).1 → C19.CnfOK (D4.load lines total).2.1 (D4.load lines total).1) :=
+  ⟨D4.conventions2B_enumOK lines total h, D4.conventions2B_cnfOK lines total h⟩
 
 end Ddnnf.C01
